@@ -181,6 +181,11 @@ type c06PanicCase struct {
 	ASTs   []json.RawMessage `json:"asts"`
 	Datum  *uni.Node         `json:"datum"`
 	Rounds int               `json:"rounds"`
+	// Benign: the datum with the marker replaced - the abandoned evaluator itself is evaluated on it afterwards
+	Benign   *uni.Node       `json:"benign,omitempty"`
+	QuantAST json.RawMessage `json:"quant_ast,omitempty"`
+	Property string          `json:"property,omitempty"`
+	Test     string          `json:"test,omitempty"`
 }
 
 var c06Marker = "boom!"
@@ -197,6 +202,10 @@ func c06PanicHook(v reflect.Value) reflect.Value {
 }
 
 func c06PanicRun(t failer, c *c06PanicCase) {
+	prop, test := c.Property, c.Test
+	if prop == "" {
+		prop, test = "C06", "TestC06_AfterPanic"
+	}
 	d := c.Datum.Interface()
 	interrupted, err := bexpr.CreateEvaluator(c.Quant, bexpr.WithHookFn(c06PanicHook))
 	if err != nil {
@@ -207,6 +216,19 @@ func c06PanicRun(t failer, c *c06PanicCase) {
 			defer func() { recover() }()
 			interrupted.Evaluate(d)
 		}()
+		if c.Benign != nil {
+			// the SAME evaluator, next call, on a datum on which nothing goes wrong
+			qe, uerr := bx.Unmarshal(c.QuantAST)
+			if uerr != nil {
+				t.Fatalf("harness: %v", uerr)
+			}
+			want := (&ref.Env{Root: c.Benign}).Eval(qe)
+			res, eerr, pan := safeEvaluate(interrupted, c.Benign.Interface())
+			if pan != nil || !want.Has(ref.Of(res, eerr)) {
+				violation(t, prop, test, c, "the evaluator of %q, abandoned %d time(s) in the middle of a fold (error or panic inside the body), returns (%v, %v, panic %v) on its next call; on that datum the expression denotes %s\n datum: %s",
+					c.Quant, round+1, res, eerr, pan, want, c.Benign)
+			}
+		}
 		for i, raw := range c.ASTs {
 			e, uerr := bx.Unmarshal(raw)
 			if uerr != nil {
@@ -225,7 +247,7 @@ func c06PanicRun(t failer, c *c06PanicCase) {
 				}
 				res, eerr, pan := safeEvaluate(ev, d)
 				if pan != nil || !want.Has(ref.Of(res, eerr)) {
-					violation(t, "C06", "TestC06_AfterPanic", c, "after %q was abandoned %d time(s) by a panic of the caller's hook (recovered by the caller), %s returns (%v, %v, panic %v); it denotes %s\n datum: %s",
+					violation(t, prop, test, c, "after %q was abandoned %d time(s) by a panic of the caller's hook (recovered by the caller), %s returns (%v, %v, panic %v); it denotes %s\n datum: %s",
 						c.Quant, round+1, ec.TextQ, res, eerr, pan, want, c.Datum)
 				}
 			}
@@ -242,10 +264,18 @@ func init() {
 		c06PanicRun(t, &c)
 		t.Logf("replay ok")
 	}
+	replayers["TestC13_AfterAbandon"] = replayers["TestC06_AfterPanic"]
 }
 
-func TestC06_AfterPanic(t *testing.T) {
-	r := rec(t, "C06", c06Rule+"; TestC06_AfterPanic: a fold abandoned by a panic of the caller's hook at a drawn element (recovered), then probes whose selectors start with the names the abandoned fold had bound; against the reference; non-trivial = the panic happens after at least one element was bound")
+func TestC06_AfterPanic(t *testing.T) { afterAbandonTest(t, "C06", "TestC06_AfterPanic", c06Rule) }
+
+// TestC13_AfterAbandon: the same histories for the history-independence property: an earlier call
+// that ERRORED (or panicked) inside a quantifier body, then the next call on the same evaluator
+// and on fresh ones.
+func TestC13_AfterAbandon(t *testing.T) { afterAbandonTest(t, "C13", "TestC13_AfterAbandon", c13Rule) }
+
+func afterAbandonTest(t *testing.T, property, test, rule string) {
+	r := rec(t, property, rule+"; TestC06_AfterPanic: a fold abandoned by a panic of the caller's hook at a drawn element (recovered), then probes whose selectors start with the names the abandoned fold had bound; against the reference; non-trivial = the panic happens after at least one element was bound")
 	rapid.Check(t, func(t *rapid.T) {
 		strT := uni.Scalar(uni.KString)
 		names := []string{"x", "v", "k", "i", "it", "e"}
@@ -254,52 +284,74 @@ func TestC06_AfterPanic(t *testing.T) {
 		if n2 == n1 {
 			n2 = n1 + "2"
 		}
+		byError := rapid.Bool().Draw(t, "abandonByError")
+		benign := false
 		mkElem := func(f int, boom bool) *uni.Node {
 			m := &uni.Node{T: uni.MapOf(strT, uni.Iface()), Keys: []*uni.Node{uni.Str("f"), uni.Str("g")}, Elems: []*uni.Node{uni.InIface(uni.Int(uni.KInt, int64(f))), uni.InIface(uni.Str("ok"))}}
-			if boom {
-				m.Elems[1] = uni.InIface(uni.Str(c06Marker))
+			if boom && !benign {
+				if byError {
+					m.Elems[1] = uni.InIface(uni.List(uni.SliceOf(uni.Iface()))) // comparing a list with a literal is an error
+				} else {
+					m.Elems[1] = uni.InIface(uni.Str(c06Marker))
+				}
 			}
 			return m
 		}
 		nel := rapid.IntRange(1, 5).Draw(t, "elems")
 		at := rapid.IntRange(0, nel-1).Draw(t, "panicAt")
 		asMap := rapid.Bool().Draw(t, "mapColl")
-		var coll *uni.Node
-		if asMap {
-			coll = &uni.Node{T: uni.MapOf(strT, uni.Iface())}
-		} else {
-			coll = uni.List(uni.SliceOf(uni.Iface()))
-		}
-		for j := 0; j < nel; j++ {
+		build := func() *uni.Node {
+			var coll *uni.Node
 			if asMap {
-				coll.Keys = append(coll.Keys, uni.Str("k"+strconv.Itoa(j)))
+				coll = &uni.Node{T: uni.MapOf(strT, uni.Iface())}
+			} else {
+				coll = uni.List(uni.SliceOf(uni.Iface()))
 			}
-			coll.Elems = append(coll.Elems, uni.InIface(mkElem(j, j == at)))
+			for j := 0; j < nel; j++ {
+				if asMap {
+					coll.Keys = append(coll.Keys, uni.Str("k"+strconv.Itoa(j)))
+				}
+				coll.Elems = append(coll.Elems, uni.InIface(mkElem(j, j == at)))
+			}
+			// top-level keys spelled like the bindings
+			root := &uni.Node{T: uni.MapOf(strT, uni.Iface())}
+			put := func(k string, v *uni.Node) {
+				root.Keys = append(root.Keys, uni.Str(k))
+				root.Elems = append(root.Elems, uni.InIface(v))
+			}
+			put("xs", coll)
+			put(n1, mkElem(100, false))
+			put(n2, uni.List(uni.SliceOf(uni.Iface()), uni.InIface(mkElem(200, false))))
+			return root
 		}
-		// top-level keys spelled like the bindings
-		root := &uni.Node{T: uni.MapOf(strT, uni.Iface())}
-		put := func(k string, v *uni.Node) {
-			root.Keys = append(root.Keys, uni.Str(k))
-			root.Elems = append(root.Elems, uni.InIface(v))
+		root := build()
+		benign = true
+		benignRoot := build()
+		benign = false
+		mode := rapid.IntRange(0, 4).Draw(t, "mode")
+		g := func(name string, op bx.Op) bx.Expr {
+			return &bx.Match{Sel: bx.Sel{Parts: []string{name, "g"}}, Op: op, Lit: "zz"}
 		}
-		put("xs", coll)
-		put(n1, mkElem(100, false))
-		put(n2, uni.List(uni.SliceOf(uni.Iface()), uni.InIface(mkElem(200, false))))
-		mode := rapid.IntRange(0, 3).Draw(t, "mode")
-		var q string
+		var qe bx.Expr
 		switch mode {
 		case 0:
-			q = fmt.Sprintf("all xs as %s { %s.g != zz }", n1, n1)
-			if asMap {
-				q = fmt.Sprintf("all xs as %s, %s { %s.g != zz }", n2, n1, n1)
-			}
+			qe = &bx.Quant{All: true, Sel: bx.Sel{Parts: []string{"xs"}}, Mode: bx.BindValue, Value: n1, Body: g(n1, bx.OpNe)}
 		case 1:
-			q = fmt.Sprintf("all xs as %s, %s { %s.g != zz }", n2, n1, n1)
+			qe = &bx.Quant{All: true, Sel: bx.Sel{Parts: []string{"xs"}}, Mode: bx.BindBoth, Index: n2, Value: n1, Body: g(n1, bx.OpNe)}
 		case 2:
-			q = fmt.Sprintf("all xs as _, %s { %s.g != zz and (any %s as %s { %s.g != zz }) }", n1, n1, n2, n2, n2)
+			qe = &bx.Quant{All: true, Sel: bx.Sel{Parts: []string{"xs"}}, Mode: bx.BindBoth, Index: "_", Value: n1,
+				Body: &bx.And{L: g(n1, bx.OpNe), R: &bx.Quant{Sel: bx.Sel{Parts: []string{n2}}, Mode: bx.BindValue, Value: n2, Body: g(n2, bx.OpNe)}}}
+		case 3:
+			qe = &bx.Quant{Sel: bx.Sel{Parts: []string{n2}}, Mode: bx.BindValue, Value: n2,
+				Body: &bx.Quant{All: true, Sel: bx.Sel{Parts: []string{"xs"}}, Mode: bx.BindBoth, Index: "_", Value: n1, Body: g(n1, bx.OpNe)}}
 		default:
-			q = fmt.Sprintf("any %s as %s { all xs as _, %s { %s.g != zz } }", n2, n2, n1, n1)
+			// the expression itself uses the binding's name as an ordinary key, after the quantifier
+			qe = &bx.Or{L: &bx.Quant{Sel: bx.Sel{Parts: []string{"xs"}}, Mode: bx.BindValue, Value: n1, Body: g(n1, bx.OpEq)},
+				R: &bx.Match{Sel: bx.Sel{Parts: []string{n1, "f"}}, Op: bx.OpEq, Lit: "100"}}
 		}
+		qrend := bx.NewRenderer(bx.Zero{})
+		qrend.NoLayout = true
+		q, _ := qrend.Render(qe)
 		probes := []bx.Expr{
 			&bx.Match{Sel: bx.Sel{Parts: []string{n1, "f"}}, Op: bx.OpEq, Lit: "100"},
 			&bx.Match{Sel: bx.Sel{Parts: []string{n2, "0", "f"}}, Op: bx.OpEq, Lit: "200"},
@@ -307,7 +359,7 @@ func TestC06_AfterPanic(t *testing.T) {
 			&bx.And{L: &bx.Match{Sel: bx.Sel{Parts: []string{n1, "g"}}, Op: bx.OpEq, Lit: "ok"}, R: &bx.Quant{All: true, Sel: bx.Sel{Parts: []string{"xs"}}, Mode: bx.BindValue, Value: n1, Body: &bx.Match{Sel: bx.Sel{Parts: []string{n1, "f"}}, Op: bx.OpNe, Lit: "100"}}},
 			&bx.Match{Sel: bx.Sel{Parts: []string{n1}}, Op: bx.OpNotEmpty},
 		}
-		c := &c06PanicCase{Quant: q, Datum: root, Rounds: rapid.IntRange(1, 3).Draw(t, "rounds")}
+		c := &c06PanicCase{Quant: q, QuantAST: bx.Marshal(qe), Datum: root, Benign: benignRoot, Rounds: rapid.IntRange(1, 3).Draw(t, "rounds"), Property: property, Test: test}
 		rend := bx.NewRenderer(chooser(t))
 		rend.MaxParen = 1
 		for _, e := range probes {
@@ -316,6 +368,6 @@ func TestC06_AfterPanic(t *testing.T) {
 			c.ASTs = append(c.ASTs, bx.Marshal(e))
 		}
 		c06PanicRun(t, c)
-		r.Case(q+"\x00"+root.String(), at > 0, map[string]interface{}{"abandoned": q, "panic_at_element": at, "elements": nel, "datum": root.String()}, fmt.Sprintf("mode:%d", mode), fmt.Sprintf("map:%v", asMap))
+		r.Case(q+"\x00"+root.String(), at > 0, map[string]interface{}{"abandoned": q, "panic_at_element": at, "elements": nel, "datum": root.String()}, fmt.Sprintf("mode:%d", mode), fmt.Sprintf("map:%v", asMap), fmt.Sprintf("by-error:%v", byError))
 	})
 }
